@@ -114,7 +114,15 @@ func Bubble(t *testing.T, f func()) (deadlock string) {
 			deadlock = fmt.Sprint(r)
 		}
 	}()
-	synctest.Test(t, func(t *testing.T) { f() })
+	synctest.Test(t, func(t *testing.T) {
+		f()
+		// let sleepers finish: once the root goroutine returns the bubble
+		// clock stops and a sleeping goroutine would count as a deadlock
+		for i := 0; i < 3; i++ {
+			time.Sleep(time.Minute)
+			synctest.Wait()
+		}
+	})
 	return ""
 }
 
